@@ -3,11 +3,11 @@
 # files behind the build tag "verif") and commits them there as a hook commit.
 set -e
 cd /verif/contracts
-find . -name contracts_verif.go | while read f; do
+find . -name "contracts*_verif.go" | while read f; do
   mkdir -p "/repo/$(dirname "$f")"
   cp "$f" "/repo/$f"
 done
 cd /repo
-git add -A -- $(cd /verif/contracts && find . -name contracts_verif.go | sed 's|^\./||')
+git add -A -- $(cd /verif/contracts && find . -name "contracts*_verif.go" | sed 's|^\./||')
 for m in fsim sqlite; do [ -f /repo/$m/contracts_verif.go ] && git add $m/contracts_verif.go; done
 if git diff --cached --quiet; then echo "contracts already in sync"; else git commit -q -m "verif: contract files (comment-only, build tag verif) for govc"; git log --oneline | head -1; fi
